@@ -161,8 +161,13 @@ hnd(coap_resource_t *resource, coap_session_t *session, const coap_pdu_t *reques
         vx_observe("   server: async registered");
         return; /* no code => empty ACK for CON */
       }
-    } else if (a == pending_async)
+    } else if (a == pending_async) {
+      /* the handler runs again for an exchange whose open-ended async entry the application has not triggered yet: the
+       * only way in is a retransmitted copy of the request that the library should have answered with an empty ACK */
+      vx_fail("server-handler:retransmitted-request-during-pending-async",
+              "the request handler was invoked again for a request whose async entry (delay 0) is still pending and was not triggered");
       pending_async = NULL;
+    }
   }
   coap_pdu_set_code(response, coap_pdu_get_code(request) == COAP_REQUEST_CODE_PUT ? COAP_RESPONSE_CODE_CHANGED : COAP_RESPONSE_CODE_CONTENT);
   if (coap_pdu_get_code(request) != COAP_REQUEST_CODE_PUT)
